@@ -1,0 +1,6 @@
+//go:build verif
+
+package natsort
+
+// VerifIsDigit exposes isdigit to the verification harness.
+func VerifIsDigit(b byte) bool { return isdigit(b) }
